@@ -432,7 +432,11 @@ func genC03(t *rapid.T) C03Case {
 		if mode != "assertions" && g.RespSig == nil {
 			g.RespSig = h.DefaultSign("T1")
 		}
-		if mode != "response" && len(g.AsrtSig) < len(g.Model.Assertions) {
+		hasNil := false
+		for _, sg := range g.AsrtSig {
+			hasNil = hasNil || sg == nil
+		}
+		if mode != "response" && (len(g.AsrtSig) < len(g.Model.Assertions) || hasNil) {
 			g.AsrtSig = nil
 			for range g.Model.Assertions {
 				g.AsrtSig = append(g.AsrtSig, h.DefaultSign("T2"))
